@@ -69,15 +69,20 @@ class guard:
     def __enter__(self):
         import signal
 
-        self.old = signal.signal(signal.SIGALRM, self._fire)
-        signal.alarm(self.seconds)
+        # only in interpreted mode: compiled code cannot be interrupted anyway, and a cold JIT compilation may
+        # legitimately take longer than the limit (there the supervising parent process is the watchdog)
+        self.active = bool(os.environ.get("NUMBA_DISABLE_JIT"))
+        if self.active:
+            self.old = signal.signal(signal.SIGALRM, self._fire)
+            signal.alarm(self.seconds)
         return self
 
     def __exit__(self, *a):
         import signal
 
-        signal.alarm(0)
-        signal.signal(signal.SIGALRM, self.old)
+        if self.active:
+            signal.alarm(0)
+            signal.signal(signal.SIGALRM, self.old)
         return False
 
 
